@@ -64,6 +64,11 @@ func OrderHistories(tier string) []OrderHistory {
 		OrderHistory{"cancelled-finished-vesting-and-open-auctions-in-one-block", cfg, []Op{waiting, fixedEarly, batchLate, {Kind: "cancel", Signer: "auc2", AID: 0}, allow(1, "bid1", "10"), allow(2, "bid1", "10"),
 			fb(1, "bid1", "bcoin", "3"), many(2, "bid1", "2", "3"), blk(2), blk(3), blk(4)}},
 	)
+	hs = append(hs,
+		// settlements with at most one matched bid but several refunds
+		OrderHistory{"batch-one-winner-two-losers", cfg, []Op{batch(0), allow(0, "bid1", "10"), allow(0, "bid2", "10"), allow(0, "bid3", "10"), many(0, "bid1", "4", "10"), worth(0, "bid2", "2", "7"), many(0, "bid3", "1", "3"), blk(2)}},
+		OrderHistory{"batch-nothing-matched-three-refunds", cfg, []Op{batch(0), allow(0, "bid1", "10"), allow(0, "bid2", "10"), allow(0, "bid3", "10"), many(0, "bid1", "4", "6"), many(0, "bid2", "4", "6"), worth(0, "bid3", "4", "30"), blk(2)}},
+	)
 	if tier == "thorough" {
 		hs = append(hs,
 			OrderHistory{"fixed-4-bidders", cfg, []Op{fixed, allow(0, "bid1", "10"), allow(0, "bid2", "10"), allow(0, "bid3", "10"), allow(0, "out1", "10"),
